@@ -207,6 +207,10 @@ pub fn wire_verdict(wire: &[(usize, Bytes)]) -> WireVerdict {
         if crc32c::crc32c(&z).to_le_bytes() != p[8..12] { viol = Some(format!("crc@{idx}")); fails.push(("crc:bad-checksum-on-own-packet".into(), format!("packet {idx}"))); break; }
         let vtag = u32::from_be_bytes([p[4], p[5], p[6], p[7]]);
         let chunks = chunks_of(p);
+        // oracle only (not part of the verdict text shared with the Lean reader): a datagram without a chunk, or a DATA chunk
+        // without user data and without the B|E pair of an empty message — e.g. a gap-acked record (payload freed)
+        // that was still marked for retransmission
+        if chunks.is_empty() { fails.push(("wire:datagram-without-chunks".to_string(), format!("packet {idx} from {}: {} bytes, no chunk", ["A", "B"][*s], p.len()))); }
         let is_init = chunks.first().map(|c| c.0 == 1).unwrap_or(false);
         let ok = if is_init { vtag == 0 } else { tag[1 - *s] == Some(vtag) };
         if !ok { viol = Some(format!("vtag@{idx}")); fails.push(("vtag:not-the-peers-tag".into(), format!("packet {idx} from {}: tag {vtag:#x}, peer announced {:?}", ["A", "B"][*s], tag[1 - *s]))); break; }
@@ -250,6 +254,7 @@ pub fn txw_lines(side: usize, c: &Case, o: &Outcome) -> (String, String, Vec<(St
     let (mut ever_sent, mut owes_sack) = (false, false);
     let mut free_sacks = 0u32;
     let mut after_t3 = false;
+    let (mut t3_count, mut max_rwnd) = (0u64, 0u64);
     let (mut rexmits, mut quiet_tx, mut max_over) = (0u64, 0u64, 0u64);
     let mut viol: Option<String> = None;
     let who = ["A", "B"][side];
@@ -259,7 +264,7 @@ pub fn txw_lines(side: usize, c: &Case, o: &Outcome) -> (String, String, Vec<(St
         let idle = ever_sent && unacked.is_empty() && queued.is_empty();
         match ev {
             hook::Ev::Mark("loop", _) => toks.push("L".into()),
-            hook::Ev::Mark("t3", _) => { toks.push("3".into()); after_t3 = !unacked.is_empty(); }
+            hook::Ev::Mark("t3", _) => { toks.push("3".into()); after_t3 = !unacked.is_empty(); t3_count = if unacked.is_empty() { 0 } else { t3_count + 1 }; }
             hook::Ev::Mark("tx_window", v) => {
                 toks.push(format!("W,{},{},{},{},{}", v[0], v[1], v[2], v[3], v[4]));
                 // correspondence only: the code's own window, reported as the code computed it
@@ -286,6 +291,7 @@ pub fn txw_lines(side: usize, c: &Case, o: &Outcome) -> (String, String, Vec<(St
                     for (t, _f, v) in chunks_of(p) {
                         if (t == 1 || t == 2) && v.len() >= 16 {
                             code_rwnd = u32::from_be_bytes([v[4], v[5], v[6], v[7]]) as u64;
+                            max_rwnd = max_rwnd.max(code_rwnd);
                             if best.0.is_none() { best.1 = code_rwnd; }
                         }
                         if t == 0 || t == 192 { owes_sack = true; }
@@ -295,6 +301,7 @@ pub fn txw_lines(side: usize, c: &Case, o: &Outcome) -> (String, String, Vec<(St
                             let ng = u16::from_be_bytes([v[8], v[9]]) as usize;
                             let gaps: Vec<(u32, u32)> = (0..ng).filter(|i| v.len() >= 16 + 4 * i).map(|i| (u16::from_be_bytes([v[12 + 4 * i], v[13 + 4 * i]]) as u32, u16::from_be_bytes([v[14 + 4 * i], v[15 + 4 * i]]) as u32)).collect();
                             if !matches!(best.0, Some(old) if tsn_gt(old, cum)) { code_rwnd = arw; }
+                            max_rwnd = max_rwnd.max(arw);
                             let newer = match best.0 { Some(old) => !tsn_gt(old, cum), None => true };
                             if newer {
                                 // at an unchanged cumulative TSN the receiver's window can only have shrunk
@@ -302,7 +309,7 @@ pub fn txw_lines(side: usize, c: &Case, o: &Outcome) -> (String, String, Vec<(St
                                 unacked.retain(|e| tsn_gt(e.0, cum));
                             }
                             for e in unacked.iter_mut() { let off = e.0.wrapping_sub(cum); if gaps.iter().any(|g| g.0 <= off && off <= g.1) { e.2 = true; } }
-                            if newer { after_t3 = after_t3 && !unacked.is_empty(); }
+                            if newer { after_t3 = after_t3 && !unacked.is_empty(); if unacked.is_empty() { t3_count = 0; } }
                         }
                     }
                 }
@@ -333,8 +340,11 @@ pub fn txw_lines(side: usize, c: &Case, o: &Outcome) -> (String, String, Vec<(St
                             if over > 1200 {
                                 // causes the code is known for: flight restarted by T3; an older SACK with the same cumulative TSN
                                 // (indistinguishable from a window update for the sender) taken at face value
-                                let cause = if after_t3 { ":after-t3-restarted-flight-size" } else if code_rwnd > best.1 { ":older-sack-with-same-cumulative-tsn" } else { "" };
-                                if viol.is_none() { viol = Some(format!("window-overshoot{}:{outstanding}>{}@{idx}", if after_t3 { "-after-t3" } else if code_rwnd > best.1 { "-stale-sack" } else { "" }, best.1)); }
+                                // only a bounded overshoot: one more window (plus a chunk) per T3 expiry; the stale window plus a packet
+                                let t3_excuse = after_t3 && over <= t3_count * (max_rwnd + 1200) + 1200;
+                                let stale_excuse = code_rwnd > best.1 && outstanding <= code_rwnd + 1200;
+                                let cause = if t3_excuse { ":after-t3-restarted-flight-size" } else if stale_excuse { ":older-sack-with-same-cumulative-tsn" } else { "" };
+                                if viol.is_none() { viol = Some(format!("window-overshoot{}:{outstanding}>{}@{idx}", if t3_excuse { "-after-t3" } else if stale_excuse { "-stale-sack" } else { "" }, best.1)); }
                                 fails.push((format!("window:new-data-beyond-advertised-window-plus-one-packet{cause}"),
                                     format!("{who}: {outstanding} unacknowledged bytes on the wire after new TSN {tsn}, newest advertised window {}", best.1)));
                             }
@@ -396,6 +406,24 @@ fn cases(args: &Args, rng: &mut Rng) -> Vec<Case> {
     // SACKs that arrive after newer ones: with a smaller cumulative TSN (ignored since 5cfc04a) and with the same one (known finding)
     v.push(c13_case(4096, 16, 256 * 1024, 200, &[30_000], faults_parse("A.TSN.5.dropn3+B.SACK.1.late4"), None));
     v.push(c13_case(4096, 16, 256 * 1024, 200, &[30_000], faults_parse("A.TSN.1.dropn3+B.SACK.1.late3"), None));
+    // the TSN space wraps early in the transfer and the receive window closes *after* the wrap (a chunk behind the wrap is
+    // lost three times, everything after it piles up): the zero / small a_rwnd of those SACKs has to be honoured
+    for k in [1u32, 2, 4] { for (rw, b) in [(4096usize, 16usize), (8192, 4), (2 * 1184, 16)] {
+        if !args.tier_thorough && (k as usize + rw / 1000) % 2 == 1 { continue; }
+        v.push(c13_case(rw, b, 256 * 1024, 120, &[30_000], vec![Fault { side: 0, ctype: 254, ordinal: k + 2, action: Action::DropN(3) }], Some(0u32.wrapping_sub(k))));
+    } }
+    // HEARTBEAT / HEARTBEAT-ACK on a checked wire (the default interval of 15 s outlives every run): size, CRC and tag
+    // rule for these two chunk types, and "silent apart from heartbeats"
+    {
+        let mut c = c13_case(32_768, 4, 65_536, 80, &[3000], vec![], None);
+        for e in c.cfg.iter_mut() { e.heartbeat_ms = 100; }
+        c.settle = Duration::from_millis(700);
+        v.push(c);
+        let mut c = c13_case(32_768, 4, 65_536, 80, &[3000], faults_parse("A.DATA.2.drop"), Some(0xFFFF_FFFD));
+        for e in c.cfg.iter_mut() { e.heartbeat_ms = 150; }
+        c.settle = Duration::from_millis(700);
+        v.push(c);
+    }
     // a partially reliable channel with loss: FORWARD-TSN is legitimate while something abandoned is unacknowledged,
     // and has to stop once the peer's cumulative ack has passed it (quiescence)
     for (f, mr) in [("A.TSN.1.dropn2", 0u16), ("A.TSN.2.dropn3+B.SACK.2.drop", 1), ("-", 0)] {
@@ -460,6 +488,10 @@ fn emit_run(run: &mut Run, c: &Case, o: &Outcome, replay: bool) {
             off += padded;
         }
     }
+    let hb = o.wire.iter().filter(|(_, p)| p.len() > 12 && (p[12] == 4 || p[12] == 5)).count();
+    if hb > 0 { run.count("runs_with_heartbeat"); }
+    if c.cfg[0].heartbeat_ms < 1000 && o.wire.iter().filter(|(_, p)| p.len() > 12 && p[12] == 4).count() == 0 { run.fail("coverage:no-heartbeat-on-the-wire", &text, "a run with a 100 ms heartbeat interval and 700 ms of idle time shows no HEARTBEAT"); }
+    if c.cfg[0].heartbeat_ms < 1000 && o.wire.iter().filter(|(_, p)| p.len() > 12 && p[12] == 5).count() == 0 { run.fail("coverage:no-heartbeat-ack-on-the-wire", &text, "HEARTBEATs are not answered"); }
     if o.traces[0].iter().any(|e| matches!(e, hook::Ev::Mark("t3", _))) { run.count("runs_with_t3"); }
     if o.traces[0].iter().any(|e| matches!(e, hook::Ev::Mark("tx_new", v) if v[3] == 1)) { run.count("runs_window_limited"); }
     if o.traces[0].iter().any(|e| matches!(e, hook::Ev::Mark("tx_new", v) if v[3] == 1 && v[0] == 0)) { run.count("runs_blocked_with_data_queued"); }
